@@ -370,7 +370,7 @@ def check_cli(program, split):
     got = []
     try:
         for fpath in files:
-            got.extend(codecs.decode_export(open(fpath, encoding='utf-8').read()))
+            got.extend(codecs.decode_export(codecs.read_out(fpath)))
     except codecs.DecodeError as e:
         bad('ill-formed', 'output does not decode: %s' % e)
         return out
